@@ -1456,7 +1456,7 @@ def native_forwarding(ctx, rule, fl, select, floor=1):
     return n_sel
 
 
-def accessor_agreement(ctx, rule, v, struct, setfmt, getfmt, table, null_default=None):
+def accessor_agreement(ctx, rule, v, struct, setfmt, getfmt, table, null_default=None, null_init=None):
     """attribute accessors: `set<X>` stores parameter i into field F of the attribute object and nothing else of the object, and
     `get<X>` hands out that same field F through out-parameter i.  table: X -> [(param index, field)].  A setter that lands in a
     sibling's field compiles and is invisible to every test that does not read the attribute back."""
@@ -1505,6 +1505,42 @@ def accessor_agreement(ctx, rule, v, struct, setfmt, getfmt, table, null_default
                             okobj = False
                 ctx.ob(rule, '%s works on the object it was given (%s only for NULL)' % (fn_.name, null_default), okobj,
                        'attr != NULL: that object; attr == NULL: the process-wide default object', loc=fn_.loc)
+                if null_init:
+                    # on the NULL path the default object is materialised first: every path from the NULL edge to the access
+                    # passes the initialiser call or the edge on which its `initialized` flag was read non-zero
+                    nts = [t for t in null_tests(fn_, 'a0') if t[1] != t[2]]
+                    inits = [c for c in fn_.calls() if c.callee == null_init[0] and isinstance(fn_.ap(c.args[0]).root, dict) and
+                             fn_.ap(c.args[0]).root.get('g') == null_default]
+                    flag = [l for l in fn_.order if l.op == 'load' and fn_.field(l) == null_init[1] and
+                            isinstance(fn_.ap(l.ops[0]).root, dict) and fn_.ap(l.ops[0]).root.get('g') == null_default]
+                    cut = set()
+                    for l in flag:
+                        for ic in fn_.users(l.id):
+                            if ic.op == 'icmp' and ic.pred in ('eq', 'ne') and const_int(ic.ops[1]) == 0:
+                                for cond, pol in cond_chain(fn_, ic.id):
+                                    for br, t_, f_ in fn_.cond_edges(cond):
+                                        nonzero = (t_ if pol else f_) if ic.pred == 'ne' else (f_ if pol else t_)
+                                        cut.add((br.block.id, nonzero))
+                        for cond, pol in cond_chain(fn_, l.id):     # if (g.initialized) / if (!g.initialized) on the i32 itself
+                            for br, t_, f_ in fn_.cond_edges(cond):
+                                cut.add((br.block.id, t_ if pol else f_))
+                    ib = set(c.block.id for c in inits)
+                    okm = bool(nts) and bool(accs)
+                    for br, nn, nl in nts:
+                        seen_b, work = set(), [nl]
+                        while work:
+                            b_ = work.pop()
+                            if b_ in seen_b or b_ in ib:
+                                continue
+                            seen_b.add(b_)
+                            for s_ in fn_.succs(fn_.blocks[b_]):
+                                if (b_, s_) not in cut:
+                                    work.append(s_)
+                        if any(a_.block.id in seen_b for a_ in accs):
+                            okm = False
+                    ctx.ob(rule, '%s materialises the defaults before it touches %s' % (fn_.name, null_default), okm,
+                           'a value stored into the default object while it is still marked uninitialised is overwritten when the '
+                           'defaults are filled in later (the request is silently lost)', loc=fn_.loc)
 
 
 def sleep_container_init_complete(ctx, rule, fl, kind):
